@@ -339,6 +339,27 @@ func init() {
 	}})
 }
 
+var c14atoms = []string{"time >= '2000-01-01T00:00:00Z'", "time < now() - 1h", "host = 'a'", "a = 1 + 2", "v > 1.5", "host =~ /^(a|b)$/"}
+
+func c14conditions() []string {
+	var out []string
+	ops := []string{" AND ", " OR "}
+	for _, x := range c14atoms {
+		out = append(out, x, "("+x+")")
+		for _, y := range c14atoms {
+			for _, o := range ops {
+				out = append(out, x+o+y, "("+x+o+y+")", "(("+x+o+y+"))")
+				for _, z := range c14atoms {
+					for _, o2 := range ops {
+						out = append(out, "("+x+o+y+")"+o2+z, x+o+"("+y+o2+z+")")
+					}
+				}
+			}
+		}
+	}
+	return out
+}
+
 func c14run(r *ev.Run) {
 	th := thorough(r)
 	// collect the SELECT corpus
@@ -383,6 +404,20 @@ func c14run(r *ev.Run) {
 		mu.Unlock()
 	}}
 	ex.Run()
+	// conditions that the evaluation splits and folds: every combination of <=3 atoms (time bounds, now(), a constant
+	// sub-expression, plain predicates) under AND/OR with and without a parenthesised group
+	nCond := 0
+	for _, cnd := range c14conditions() {
+		t := "SELECT v FROM m WHERE " + cnd
+		if _, err := influxql.ParseStatement(t); err == nil {
+			if _, ok := roots[t]; !ok {
+				roots[t] = 2
+				nCond++
+			}
+			exprs[cnd] = true
+		}
+	}
+	r.Set("condition_roots", nCond)
 	var texts []string
 	for t := range roots {
 		texts = append(texts, t)
